@@ -207,6 +207,11 @@ def run(ctx):
     crosscheck(ctx, "C13.R9", INF + ".AbstractType.addsubtype", "ref_info.py",
                "addsubtype", INF + ".AbstractType",
                "registration replaces by name (idempotent across loads)")
+    crosscheck(ctx, "C13.R9", LD + ".ConfigLoader.startSection",
+               "ref_loader.py", "startSection", LD + ".ConfigLoader",
+               "a section's type is resolved through the loader's current "
+               "schema only -- never through what an earlier load left in a "
+               "shared implementer table")
     crosscheck(ctx, "C13.R9", INF + ".AbstractType.getsubtype",
                "ref_matcher.py", "getsubtype", INF + ".AbstractType",
                "lookup by name only")
